@@ -15,7 +15,7 @@ for f in sorted(glob.glob(os.path.join(V, 'evidence', 'C*.json'))):
     fns = {x['fn'].split('::')[0] for x in e['coverage'].get('functions_under_contract', [])}
     if (read | fns) & set(changed) or e['property_id'] == own:
         props.append(e['property_id'])
-S = tempfile.mkdtemp(prefix='refsweep_', dir='/tmp')
+S = tempfile.mkdtemp(prefix='refsweep_', dir='/var/tmp')
 try:
     files = subprocess.run(['git', '-C', '/repo', 'ls-files', '-z', 'dataflows'], capture_output=True).stdout.split(b'\0')
     for f in files:
@@ -30,7 +30,7 @@ try:
     bad = 0
     for p in props:
         env = dict(os.environ, PYVC_REPO=S, PYVC_OUT=os.path.join(S, 'out'))
-        cmd = [os.path.join(V, 'check'), p] + ([] if p == own else ['--no-native'])
+        cmd = [os.path.join(V, 'check'), p] + ([] if (p == own or os.environ.get('REFSWEEP_FULL')) else ['--no-native'])
         out = subprocess.run(cmd, capture_output=True, text=True, env=env).stdout
         vio = [l for l in out.splitlines() if l.startswith('VIOLATION')]
         last = [l for l in out.splitlines() if ' rc=' in l]
@@ -43,13 +43,13 @@ try:
         status = 'FALSE-ALARM' if vio else ('undecided' if und else 'ok')
         bad += bool(vio)
         if status != 'ok' or os.environ.get('REFSWEEP_VERBOSE'):
-            print('%-12s %s %s %s' % (status, os.path.basename(patch), p, (last[-1][last[-1].find('obligations='):][:110] if last else 'no result')))
+            print('%-12s %s %s %s' % (status, os.path.basename(os.path.dirname(patch)), p, (last[-1][last[-1].find('obligations='):][:110] if last else 'no result')))
         oks = locals().get('oks', 0) + (status == 'ok')
         for v in vio[:4]:
             print('      ', v[:230])
         for u in und[:3]:
             print('       UNDECIDED', u)
-    print('SUMMARY %s: %d checks, %d ok, %d false alarms' % (os.path.basename(patch), len(props), oks, bad))
+    print('SUMMARY %s: %d checks, %d ok, %d false alarms' % (os.path.basename(os.path.dirname(patch)), len(props), oks, bad))
     sys.exit(1 if bad else 0)
 finally:
     shutil.rmtree(S, ignore_errors=True)
